@@ -387,7 +387,7 @@ class Gen:
 
     def function(self, sc):
         self.fn_count += 1
-        kind = self.r.randrange(20)
+        kind = self.r.randrange(21)
         name = f"f{self.fn_count}"
         deco = ""
         if self.chance(self.o["decorators"]):
@@ -475,6 +475,26 @@ class Gen:
                 call = f"{name}({arg()}, {arg()})" if two else f"{name}({arg()})"
                 out.append(self.pick([f"println({call})", f"let {name}r = {call}\nprintln({name}r)", f"println({call} + {call})"]))
             out.append(f"println({name}c)")
+        elif kind == 20:        # a closure escapes the block whose FIRST local it captured (mutable), the block ends normally
+            self.features.add("closure-escapes-block-first-local")
+            n = self.r.randrange(2, 4)
+            body = []
+            body.append("    let mut h1 = null")
+            body.append("    let mut h2 = null")
+            pre = self.pick(["", "        let pad = 7\n"])      # the captured local first in its block, or not
+            body.append(f"    for i in 0..{n} {{\n{pre}        let mut c = i * 10\n        let g = fn() {{ c += 1; return c }}\n        if i == 0 {{ h1 = g }} else {{ h2 = g }}\n    }}")
+            body.append("    let r1 = h1()")
+            body.append("    let r2 = h2()")
+            body.append("    let r3 = h1()")
+            body.append(f"    if r1 > 0 {{\n        let mut d = {self.r.randrange(2, 9)}\n        h1 = fn() {{ d += 1; return d }}\n    }}")
+            body.append("    let other = 1000")
+            body.append("    let r4 = h1()")
+            body.append("    {\n        let mut e = 50\n        h2 = fn() { e += 5; return e }\n    }")
+            body.append("    let more = 2000")
+            body.append("    let r5 = h2()")
+            body.append("    return r1 + r2 * 10 + r3 * 100 + r4 * 1000 + r5 * 10000 + other + more")
+            out.append(f"fn {name}() {{\n" + "\n".join(body) + "\n}")
+            out.append(f"println({name}())")
         elif kind == 18:        # closures / nested functions returned as the function's LAST EXPRESSION, several instances, noise calls between
             self.features.add("closure-as-tail-value")
             v = self.pick([
